@@ -167,7 +167,18 @@ def parse_tags(text):
     # assert isinstance(text, unicode)
     if not text:
         return []
-    return Parser(variant="tags").parse_tags(text)
+
+    tags = []
+    parser = Parser(variant="tags")
+    for line in text.splitlines():
+        parser.line += 1
+        line = line.strip()
+        if not line:
+            continue
+        if not line.startswith("@"):
+            raise ParserError(u"tag: %s" % line, parser.line)
+        tags.extend(parser.parse_tags(line))
+    return tags
 
 
 # -----------------------------------------------------------------------------
@@ -332,13 +343,19 @@ class Parser(object):
         self.tags = []
 
     def _build_rule_statement(self, keyword, line):
+        if not self.feature and self.variant != "rule":
+            # -- CASE: parse_scenario(), parse_steps() with a rule in the text.
+            msg = u"Rule should not be used here"
+            raise ParserError(msg, self.line, self.filename, line)
         name = line[len(keyword) + 1:].strip()
         rule = model.Rule(self.filename, self.line, keyword, name,
                           tags=self.tags)
         self.rule = rule
         self.scenario_container = rule
         self.statement = rule
-        self.feature.add_rule(self.statement)
+        if self.feature:
+            # -- HINT: A rule can be parsed without a feature (parse_rule()).
+            self.feature.add_rule(self.statement)
         # -- RESET STATE:
         self.tags = []
 
@@ -351,6 +368,9 @@ class Parser(object):
                 # -- HINT: Rule may have default background w/o steps.
                 msg = u"Second Background (can have only one)"
                 raise ParserError(msg, self.line, self.filename, line)
+        if not self.scenario_container:
+            msg = u"Background should not be used here"
+            raise ParserError(msg, self.line, self.filename, line)
         name = line[len(keyword) + 1:].strip()
         background = model.Background(self.filename, self.line, keyword, name)
         self.scenario_container.add_background(background)
@@ -374,7 +394,8 @@ class Parser(object):
         template = model.ScenarioOutline(self.filename, self.line, keyword, name,
                                          tags=self.tags)
         self.statement = template
-        self.scenario_container.add_scenario(template)
+        if self.scenario_container:
+            self.scenario_container.add_scenario(template)
 
         # -- RESET STATE:
         self.tags = []
@@ -471,6 +492,9 @@ class Parser(object):
             line = line.strip()[1:].strip()
             if line.lstrip().lower().startswith("language:"):
                 language = line[9:].strip()
+                if language not in i18n.languages:
+                    raise ParserError(u"Unknown language: %s" % language,
+                                      self.line, self.filename, line)
                 self.language = language
                 self.keywords = i18n.languages[language]
             return
@@ -617,6 +641,9 @@ class Parser(object):
             self.state = State.BACKGROUND
             return True
 
+        if not self.rule:
+            # -- CASE: parse_rule() with text that does not start with a rule.
+            return False
         self.rule.description.append(line)
         return True
 
@@ -637,6 +664,9 @@ class Parser(object):
         step = self.parse_step(line)
         if step:
             # -- FIRST STEP DETECTED: End collection of description-part.
+            if self.statement is None:
+                # -- CASE: parse_scenario() with text that starts with a step.
+                return False
             self.state = State.STEPS
             self.statement.steps.append(step)
             return True
@@ -651,6 +681,9 @@ class Parser(object):
         # -- OTHERWISE: Add description line.
         # pylint: disable=E1103
         #   E1103   Instance of "Background" has no "description" member...
+        if self.statement is None:
+            # -- CASE: parse_scenario() with text that starts with a description.
+            return False
         self.statement.description.append(line)
         return True
 
@@ -770,7 +803,7 @@ class Parser(object):
         if not re.match(r"^(|.+)\|$", line):
             logger = logging.getLogger("behave")
             logger.warning(u"Malformed table row at %s: line %i",
-                           self.feature.filename, self.line)
+                           self.filename, self.line)
 
         # -- SUPPORT: Escaped-pipe(s) in Gherkin cell values.
         #    Search for pipe(s) that are not preceded with an escape char.
@@ -804,7 +837,7 @@ class Parser(object):
         :return: List of parsed rule (as :class:`~behave.model:Rule` object).
         """
         self._parse_loop(text, initial_state=State.RULE, filename=filename)
-        rule = self.statement
+        rule = self.rule
         return rule
 
 
